@@ -50,6 +50,12 @@ func CheckHeader(b []byte, planes int) error {
 		}
 		prev = o
 	}
+	// PS3.5 G.5: "the unused offsets shall be zero" (the header always holds 15 offset words)
+	for i := h.Count; i < 15 && 4+4*i+4 <= len(b); i++ {
+		if v := uint32(b[4+4*i]) | uint32(b[5+4*i])<<8 | uint32(b[6+4*i])<<16 | uint32(b[7+4*i])<<24; v != 0 {
+			return fmt.Errorf("unused header offset word %d = %d, frame has %d segments (PS3.5 G.5: unused offsets are zero)", i+1, v, h.Count)
+		}
+	}
 	return nil
 }
 
